@@ -173,6 +173,15 @@ func runC14(p *Prog, r *Report) {
 			q.Req(R, nm+"-resets", len(st) == 1 && st.AllHeld(coreDialerMu), st.Pos(p), "reconnTime = reconnMinTime under the lock", nm+" does not reset reconnTime to reconnMinTime under the lock")
 		}
 	}
+	if ap := q.Fn(R, "internal/core", "socket", "addPipe"); ap.OK() {
+		var pcs Sel
+		for _, k := range []string{"go", "call", "defer"} {
+			pcs = append(pcs, ap.AllEv(k, "core.(*dialer).pipeConnected")...)
+		}
+		st := ap.Ev("store", "*.added").Arg(0, "true")
+		ok := len(pcs) == 1 && pcs[0].Kind != "defer" && pcs[0].Fn == ap.fn && len(st) == 1 && InstrDominates(st[0].In, pcs[0].In)
+		r.Check(ok, R, "reset-only-after-attach", pcs.Pos(p), "pipeConnected (which resets the delay) runs only after the pipe was attached (added = true)", "the redial delay is reset for a connection that never attached (refused by the protocol or closed while attaching): the back-off collapses to ReconnectTime although no pipe ever came up: "+argsOf(pcs))
+	}
 	pc := q.Fn(R, "internal/core", "dialer", "pipeConnected")
 	if pc.OK() {
 		st := pc.Ev("store", "recv.reconnTime")
